@@ -133,6 +133,7 @@ MCTargets ==
                               "rc.fee", "rc.tx_hash", "rc.execution_status.revert",
                               "rc.l1_gas_consumed", "rc.l1_data_gas_consumed", "msg.add", "ev.add",
                               "sd.deployed.class_hash", "sd.deployed.addr", "sd.deployed.remove"}]
+MCShapesTwo == {"full", "emptydiff"}
 MCEmptyDiffShapes == {"emptydiff", "empty"}
 MCClassShapes == {"full"}
 
